@@ -1496,3 +1496,9 @@ theorem parse_reencodes (S : Schema) (hS : WfSchemaT S) (c : Nat) (bs : Bytes) (
   dumpVal_total S hS m (parse_msgEnc S hS c bs m hb h)
 
 end Bp
+
+#print axioms Bp.parse_msgTyped
+#print axioms Bp.parse_msgEnc
+#print axioms Bp.parse_reencodes
+#print axioms Bp.dumpVal_total
+#print axioms Bp.msgTyped_weaken
